@@ -53,9 +53,9 @@ void __real_free(void *p){ free(p); }
 
 /* ------------------------------------------------------------------ streams (read-only after start-up) */
 typedef struct { unsigned char *data; long len; int npk; unsigned char **pk; long *pkn; ogg_int64_t *gran; int have; } stream_t;
-enum { ST_S1=0, ST_S2, ST_F0, ST_CH, NSTREAMS };
+enum { ST_S1=0, ST_S2, ST_F0, ST_CH, ST_PL, ST_PR, NSTREAMS };
 static stream_t g_st[NSTREAMS];
-static const char *g_stname[NSTREAMS]={"s1","s2","f0","ch"};
+static const char *g_stname[NSTREAMS]={"s1","s2","f0","ch","pl","pr"};   /* pl/pr: coupled stereo with a digitally silent left/right channel */
 
 static void stream_load(stream_t *s,const char *path){
   ogg_sync_state oy; ogg_stream_state os; ogg_page og; ogg_packet op; int init=0; long off=0; int cap=0;
@@ -343,22 +343,22 @@ static void body_vf(tctx *T,const vf_cfg *c){
   API(r=ov_clear(&vf)); OBS_I(r); OBS_I(m.nclose); OBS_I(m.nread); OBS_I(m.nseek);
 }
 
-enum { B_ENCA=0,B_ENCB,B_ENCC,B_ENCD,B_DECA,B_DECB,B_DECF,B_DECH,B_VFA,B_VFB,B_VFF,B_VFC,NBODY };
-static const char *g_bname[NBODY]={"ENCA","ENCB","ENCC","ENCD","DECA","DECB","DECF","DECH","VFA","VFB","VFF","VFC"};
+enum { B_ENCA=0,B_ENCB,B_ENCC,B_ENCD,B_DECA,B_DECB,B_DECF,B_DECH,B_DECL,B_DECR,B_VFA,B_VFB,B_VFF,B_VFC,B_VFL,B_VFR,NBODY };
+static const char *g_bname[NBODY]={"ENCA","ENCB","ENCC","ENCD","DECA","DECB","DECF","DECH","DECL","DECR","VFA","VFB","VFF","VFC","VFL","VFR"};
 static const enc_cfg g_enc[4]={
   {2,44100,0,0.4f,0,0,0,3,1024},            /* ENCA stereo 44.1k VBR */
   {1,8000,2,0,-1,12000,-1,3,1024},          /* ENCB mono 8k, 3-step managed setup + ctl */
   {6,44100,0,0.3f,0,0,0,2,1024},            /* ENCC 5.1 VBR */
   {2,22050,1,0,40000,32000,24000,3,1024}    /* ENCD stereo 22k managed with hard limits */
 };
-static const dec_cfg g_dec[4]={ {ST_S1,5,2,0},{ST_S2,5,-1,0},{ST_F0,5,1,0},{ST_S2,4,-1,1} };
-static const vf_cfg g_vf[4]={ {ST_S1,0,5,0},{ST_S2,1,9,2},{ST_F0,1,7,1},{ST_CH,0,11,0} };
-static int body_stream(int b){ if(b>=B_DECA&&b<=B_DECH)return g_dec[b-B_DECA].st; if(b>=B_VFA&&b<=B_VFC)return g_vf[b-B_VFA].st; return -1; }
+static const dec_cfg g_dec[6]={ {ST_S1,5,2,0},{ST_S2,5,-1,0},{ST_F0,5,1,0},{ST_S2,4,-1,1},{ST_PL,5,-1,0},{ST_PR,5,3,0} };
+static const vf_cfg g_vf[6]={ {ST_S1,0,5,0},{ST_S2,1,9,2},{ST_F0,1,7,1},{ST_CH,0,11,0},{ST_PL,1,6,0},{ST_PR,0,10,2} };
+static int body_stream(int b){ if(b>=B_DECA&&b<=B_DECR)return g_dec[b-B_DECA].st; if(b>=B_VFA&&b<=B_VFR)return g_vf[b-B_VFA].st; return -1; }
 static int body_id(const char *n){ int i; for(i=0;i<NBODY;i++)if(!strcmp(n,g_bname[i]))return i; return -1; }
 static void run_body(tctx *T){
   int b=T->body;
   if(b<=B_ENCD)body_enc(T,&g_enc[b]);
-  else if(b<=B_DECH)body_dec(T,&g_dec[b-B_DECA]);
+  else if(b<=B_DECR)body_dec(T,&g_dec[b-B_DECA]);
   else body_vf(T,&g_vf[b-B_VFA]);
   step_close(T);
 }
@@ -771,6 +771,44 @@ static int mkfloor0(const char *path,long rate,int npk){
   return 0;
 }
 
+/* ------------------------------------------------------------------ hard-panned stereo stream (one channel exactly zero) */
+static int mkpan(const char *path,int silent,long n){
+  vorbis_info vi; vorbis_comment vc; vorbis_dsp_state vd; vorbis_block vb; ogg_stream_state os; ogg_page og; ogg_packet op,h1,h2,h3; FILE *f=fopen(path,"wb");
+  long done=0; int eos=0; unsigned lcg=777u+silent; long packets=0;
+  if(!f)return 2;
+  vorbis_info_init(&vi);
+  if(vorbis_encode_init_vbr(&vi,2,44100,0.5f))return 3;
+  vorbis_comment_init(&vc); vorbis_comment_add_tag(&vc,"TITLE",silent?"right-silent":"left-silent");
+  vorbis_analysis_init(&vd,&vi); vorbis_block_init(&vd,&vb); ogg_stream_init(&os,0x5180+silent);
+  vorbis_analysis_headerout(&vd,&vc,&h1,&h2,&h3);
+  ogg_stream_packetin(&os,&h1); ogg_stream_packetin(&os,&h2); ogg_stream_packetin(&os,&h3);
+  while(ogg_stream_flush(&os,&og)){ fwrite(og.header,1,og.header_len,f); fwrite(og.body,1,og.body_len,f); }
+  while(!eos){
+    if(done>=n)vorbis_analysis_wrote(&vd,0);
+    else{
+      long c=n-done>1024?1024:n-done,j; float **b=vorbis_analysis_buffer(&vd,c);
+      for(j=0;j<c;j++){
+        long t=done+j; float v;
+        lcg=lcg*1103515245u+12345u;
+        v=0.4f*sinf(6.2831853f*523.f*(float)t/44100.f)+0.25f*(((lcg>>8)&0xffff)/32768.f-1.f)+((t%1700)==900?0.7f:0.f);
+        b[silent][j]=0.f; b[1-silent][j]=v;
+      }
+      vorbis_analysis_wrote(&vd,c); done+=c;
+    }
+    while(vorbis_analysis_blockout(&vd,&vb)==1){
+      vorbis_analysis(&vb,NULL); vorbis_bitrate_addblock(&vb);
+      while(vorbis_bitrate_flushpacket(&vd,&op)){
+        ogg_stream_packetin(&os,&op); packets++;
+        while(!eos){ int r=(packets%3==0||op.e_o_s)?ogg_stream_flush(&os,&og):ogg_stream_pageout(&os,&og); if(!r)break; fwrite(og.header,1,og.header_len,f); fwrite(og.body,1,og.body_len,f); if(ogg_page_eos(&og))eos=1; }
+      }
+    }
+  }
+  fclose(f);
+  ogg_stream_clear(&os); vorbis_block_clear(&vb); vorbis_dsp_clear(&vd); vorbis_comment_clear(&vc); vorbis_info_clear(&vi);
+  printf("{\"file\":\"%s\",\"silent_channel\":%d,\"n\":%ld,\"packets\":%ld}\n",path,silent,n,packets);
+  return 0;
+}
+
 /* ------------------------------------------------------------------ main */
 static volatile long g_curcase=-1;
 static void on_vtalrm(int s){ char b[64]; int n=snprintf(b,sizeof(b),"%ld TIMEOUT\n",g_curcase); (void)s; if(write(1,b,n)){} _exit(3); }
@@ -783,6 +821,7 @@ int main(int argc,char **argv){
     if(!strcmp(argv[i],"--cases")&&i+1<argc){ cases=argv[++i]; continue; }
     if(!strncmp(argv[i],"deadline=",9)){ g_deadline=atof(argv[i]+9); continue; }
     if(!strcmp(argv[i],"--mkfloor0")&&i+3<argc)return mkfloor0(argv[i+1],atol(argv[i+2]),atoi(argv[i+3]));
+    if(!strcmp(argv[i],"--mkpan")&&i+3<argc)return mkpan(argv[i+1],atoi(argv[i+2]),atol(argv[i+3]));
     if(!strcmp(argv[i],"--selfrace"))return selfrace();
     if(!strcmp(argv[i],"--free")&&i+3<argc){ mode="free"; break; }
     if(!strcmp(argv[i],"--solo-raw")&&i+1<argc){ mode="soloraw"; break; }
